@@ -166,7 +166,7 @@ Example ex_init_migrates :
   fget (run w_oracle (Init TDefault) w_init_state) "config/merchant_categories.csv.bak" = Some w_csv /\
   fget (run w_oracle (Init TDefault) w_init_state) "config/merchant_categories.csv" = None /\
   fget (run w_oracle (Init TDefault) w_init_state) "data/bank.csv" = Some "d" /\
-  fget (run w_oracle (Init TDefault) w_init_state) "config/settings.yaml" = Some "year: 2025".
+  fget (run w_oracle (Init TDefault) w_init_state) "config/settings.yaml" = Some ("year: 2025" ++ VIEWS_SUFFIX).
 Proof. vm_compute. repeat split. Qed.
 
 (* the hypotheses of the partial init theorem hold for a non-trivial path (the CSV itself, which is renamed) *)
